@@ -28,6 +28,7 @@ class C10(c01.C01):
             if fmt == "xml" and xf is not None:
                 out.filters[xf] += 1
                 continue
+            observe.export_decoy(fmt, **o)
             try:
                 text = doc.serialize(format=fmt, **o)
             except Exception as e:
